@@ -3,11 +3,13 @@
 use crate::runner::ScenarioFn;
 
 pub mod c02;
+pub mod c08;
 pub mod c10;
 
 pub fn scenario_for(property: &str) -> Option<ScenarioFn> {
     match property {
         "C02" => Some(c02::run),
+        "C08" => Some(c08::run),
         "C10" => Some(c10::run),
         _ => None,
     }
@@ -17,6 +19,10 @@ pub fn scenario_for(property: &str) -> Option<ScenarioFn> {
 pub fn budget(property: &str, tier: &str) -> (u64, u64, u64) {
     let quick = tier != "thorough";
     match property {
+        "C08" if quick => (30_000, 30, 80),
+        "C08" => (600_000, 60, 900),
+        "C02" if quick => (20_000, 30, 60),
+        "C10" if quick => (16_000, 30, 60),
         _ if quick => (4000, 30, 75),
         _ => (200_000, 60, 900),
     }
